@@ -81,12 +81,26 @@ class Clause:
     n: Dict[str, int] = field(default_factory=lambda: {"quick": 300, "thorough": 3000})
     shards: Dict[str, int] = field(default_factory=lambda: {"quick": 1, "thorough": 16})
     exhaustive_note: str = ""
+    last_evals: int = 1
+    weight_by_evals: bool = False  # each of the n sub-evaluations of a case is a distinct non-trivial item (fault enumeration)
 
     def run_check(self, case) -> List[Dev]:
-        """Run the oracle on one case; library exceptions that escape become deviations."""
+        """Run the oracle on one case; library exceptions that escape become deviations.
+
+        An oracle may return ``(deviations, n)`` to say that the case comprised ``n`` oracle
+        evaluations (e.g. n injected faults); ``last_evals`` then carries n to the evidence."""
+        self.last_evals = 1
         if self.kind == "history":
             return self.history.run_trace(case)
-        return guarded(self.check, case)
+
+        def call(c):
+            r = self.check(c)
+            if isinstance(r, tuple):
+                self.last_evals = int(r[1])
+                return r[0]
+            return r
+
+        return guarded(call, case)
 
 
 def guarded(fn, *args) -> List[Dev]:
